@@ -119,8 +119,9 @@ def render(prog, lang, layout=0):
                     L(f"def {name}(a,")
                     L("        b):")
                 elif v == "tailwrap":
+                    # what stands between the brackets of the annotation rotates: names, a keyword constant, a nested group with constants
                     L(f"def {name}(a, b) -> Dict[")
-                    L("        str, int")
+                    L("        " + ("str, int", "str, None", "Tuple[str, int], None, True")[len(out) % 3])
                     L("]:")
                 elif v == "bracegroup":
                     L(f'def {name}(a, b={{"k": 1}}):')
